@@ -155,6 +155,12 @@ class Program:
                 for n, v in base[3]:
                     if n == t[2]:
                         return v
+            if base[0] == "call" and base[1] == "str::split_at" and len(base[2]) == 2 and t[2] in ("0", "1"):
+                # s.split_at(i).0 is s[..i] and .1 is s[i..] (same value, same panic condition)
+                w, i = base[2]
+                if t[2] == "0":
+                    return ("call", "Index::index", (w, ("adt", "std::ops::RangeTo", "RangeTo", (("end", i),))))
+                return ("call", "Index::index", (w, ("adt", "std::ops::RangeFrom", "RangeFrom", (("start", i),))))
             if base[0] == "tuple":
                 try:
                     k = int(t[2])
